@@ -151,6 +151,11 @@ func (sc *shapeChecker) value(s *shState, v ssa.Value) string {
 	if id, ok := s.vals[v]; ok {
 		return id
 	}
+	if fa, ok := v.(*ssa.FieldAddr); ok {
+		if f := fieldOf(fa); f != nil && f.Embedded() {
+			return sc.value(s, fa.X) // &item.listLinks is the item (links kept in an embedded helper struct)
+		}
+	}
 	switch x := v.(type) {
 	case *ssa.Const:
 		if x.IsNil() {
@@ -296,6 +301,54 @@ func (sc *shapeChecker) step(s *shState, in ssa.Instruction) {
 					s.countUnknown = true
 				}
 			}
+			// `item.listLinks = listLinks{next: a, prev: b}`: a struct holding link fields is copied as a whole
+			if ef := fieldOf(a); ef != nil && ef.Embedded() {
+				if ld, ok := x.Val.(*ssa.UnOp); ok && ld.Op == token.MUL {
+					if est, ok := deref(ef.Type()).Underlying().(*types.Struct); ok {
+						dst, src := sc.value(s, a.X), sc.value(s, ld.X)
+						for j := 0; j < est.NumFields(); j++ {
+							if lf := sc.linkField(est.Field(j)); lf != "" {
+								nv, had := s.field[shKey{src, lf}]
+								if !had {
+									nv = "nil"
+								}
+								k := shKey{dst, lf}
+								if old, hadOld := s.field[k]; hadOld && old != nv && old != "nil" {
+									if s.unlinked == nil {
+										s.unlinked = map[string]bool{}
+									}
+									s.unlinked[old] = true
+								}
+								s.field[k] = nv
+								s.stored[k] = true
+								if _, isTmp := ld.X.(*ssa.Alloc); isTmp {
+									// the temporary the literal was built in is not a node
+									delete(s.field, shKey{src, lf})
+									delete(s.stored, shKey{src, lf})
+								}
+							}
+						}
+					}
+				} else if k0, ok := x.Val.(*ssa.Const); ok && k0.Value == nil {
+					// `*links = listLinks{}`: both links cleared at once
+					if est, ok := deref(ef.Type()).Underlying().(*types.Struct); ok {
+						dst := sc.value(s, a.X)
+						for j := 0; j < est.NumFields(); j++ {
+							if lf := sc.linkField(est.Field(j)); lf != "" {
+								k := shKey{dst, lf}
+								if old, hadOld := s.field[k]; hadOld && old != "nil" {
+									if s.unlinked == nil {
+										s.unlinked = map[string]bool{}
+									}
+									s.unlinked[old] = true
+								}
+								s.field[k] = "nil"
+								s.stored[k] = true
+							}
+						}
+					}
+				}
+			}
 			if f := sc.linkField(fieldOf(a)); f != "" {
 				k := shKey{sc.value(s, a.X), f}
 				nv := sc.value(s, x.Val)
@@ -318,6 +371,59 @@ func (sc *shapeChecker) step(s *shState, in ssa.Instruction) {
 		case *ssa.Alloc:
 			if _, isPtr := a.Type().Underlying().(*types.Pointer).Elem().Underlying().(*types.Pointer); isPtr {
 				s.cells[a] = sc.value(s, x.Val)
+			}
+		}
+		// `*links = listLinks{}` through a pointer (the receiver of a detach method): both links cleared
+		if k0, ok := x.Val.(*ssa.Const); ok && k0.Value == nil {
+			if st, ok := x.Val.Type().Underlying().(*types.Struct); ok {
+				if _, isFa := x.Addr.(*ssa.FieldAddr); !isFa {
+					dst := sc.value(s, x.Addr)
+					for j := 0; j < st.NumFields(); j++ {
+						if lf := sc.linkField(st.Field(j)); lf != "" {
+							k := shKey{dst, lf}
+							if old, hadOld := s.field[k]; hadOld && old != "nil" {
+								if s.unlinked == nil {
+									s.unlinked = map[string]bool{}
+								}
+								s.unlinked[old] = true
+							}
+							s.field[k] = "nil"
+							s.stored[k] = true
+						}
+					}
+				}
+			}
+		}
+		// a node copied as a whole (`newItem := listItem{…}` builds a temporary and copies it): the links go with it
+		if ld, ok := x.Val.(*ssa.UnOp); ok && ld.Op == token.MUL {
+			if st, ok := x.Val.Type().Underlying().(*types.Struct); ok {
+				if fa, isFa := x.Addr.(*ssa.FieldAddr); !isFa || !fieldOf(fa).Embedded() {
+					var links []string
+					var collect func(t *types.Struct, depth int)
+					collect = func(t *types.Struct, depth int) {
+						for j := 0; j < t.NumFields() && depth < 2; j++ {
+							if lf := sc.linkField(t.Field(j)); lf != "" {
+								links = append(links, lf)
+							} else if t.Field(j).Embedded() {
+								if et, ok := deref(t.Field(j).Type()).Underlying().(*types.Struct); ok {
+									collect(et, depth+1)
+								}
+							}
+						}
+					}
+					collect(st, 0)
+					if len(links) > 0 {
+						dst, src := sc.value(s, x.Addr), sc.value(s, ld.X)
+						for _, lf := range links {
+							nv, had := s.field[shKey{src, lf}]
+							if !had {
+								nv = "nil"
+							}
+							s.field[shKey{dst, lf}] = nv
+							s.stored[shKey{dst, lf}] = true
+						}
+					}
+				}
 			}
 		}
 	case *ssa.Call:
@@ -351,6 +457,14 @@ func (sc *shapeChecker) writesLinks(fn *ssa.Function) bool {
 		if st, ok := in.(*ssa.Store); ok {
 			if fa, ok := st.Addr.(*ssa.FieldAddr); ok && sc.linkField(fieldOf(fa)) != "" {
 				r = true
+			}
+			// a struct that holds the links written as a whole (`*links = listLinks{}`)
+			if t, ok := st.Val.Type().Underlying().(*types.Struct); ok {
+				for j := 0; j < t.NumFields(); j++ {
+					if sc.linkField(t.Field(j)) != "" {
+						r = true
+					}
+				}
 			}
 		}
 	}
@@ -898,7 +1012,26 @@ func ruleListUnlinkedUse(c *Ctx) {
 		got := map[int]map[*types.Var]bool{}
 		for _, in := range instrsOf(fn) {
 			st, ok := in.(*ssa.Store)
-			if !ok || !isNilConst(st.Val) {
+			if !ok {
+				continue
+			}
+			// `*links = listLinks{}`: the struct that holds both links zeroed through the parameter
+			if k0, isC := st.Val.(*ssa.Const); isC && k0.Value == nil {
+				if t, isS := st.Val.Type().Underlying().(*types.Struct); isS {
+					both := map[*types.Var]bool{}
+					for j := 0; j < t.NumFields(); j++ {
+						if t.Field(j) == fNext || t.Field(j) == fPrev {
+							both[t.Field(j)] = true
+						}
+					}
+					for i, p := range fn.Params {
+						if outerBase(st.Addr) == ssa.Value(p) && both[fNext] && both[fPrev] {
+							got[i] = both
+						}
+					}
+				}
+			}
+			if !isNilConst(st.Val) {
 				continue
 			}
 			fa, ok := st.Addr.(*ssa.FieldAddr)
@@ -910,7 +1043,7 @@ func ruleListUnlinkedUse(c *Ctx) {
 				continue
 			}
 			for i, p := range fn.Params {
-				if fa.X == ssa.Value(p) {
+				if outerBase(fa.X) == ssa.Value(p) {
 					if got[i] == nil {
 						got[i] = map[*types.Var]bool{}
 					}
@@ -944,7 +1077,7 @@ func ruleListUnlinkedUse(c *Ctx) {
 						continue
 					}
 					for k, p := range fn.Params {
-						if call.Call.Args[i] == ssa.Value(p) {
+						if outerBase(call.Call.Args[i]) == ssa.Value(p) {
 							if detach[fn] == nil {
 								detach[fn] = map[int]bool{}
 							}
@@ -987,7 +1120,7 @@ func ruleListUnlinkedUse(c *Ctx) {
 				scan := func(b *ssa.BasicBlock, from int) {
 					for _, in2 := range b.Instrs[from:] {
 						if u, ok := in2.(*ssa.UnOp); ok && u.Op == token.MUL {
-							if fa, ok := u.X.(*ssa.FieldAddr); ok && fa.X == node && (fieldOf(fa) == fNext || fieldOf(fa) == fPrev) && bad == "" {
+							if fa, ok := u.X.(*ssa.FieldAddr); ok && outerBase(fa.X) == node && (fieldOf(fa) == fNext || fieldOf(fa) == fPrev) && bad == "" {
 								bad = fmt.Sprintf("%s reads %s.%s at %s after %s detached it at %s", fnName(fn), node.Name(), fieldOf(fa).Name(), c.Pos(c.InstrPos(in2)), g.Name(), c.Pos(call.Pos()))
 							}
 						}
